@@ -10,7 +10,8 @@
    Modelling decisions (DESIGN 3.4, 7, 8 C08):
    - the three LRU caches are omitted (a hit returns what the uncached call returns);
    - filterSlice is modelled as the pure function computing the SAME ORDER of kept elements
-     as Go's swap-to-the-end loop, without the write to the caller's slice (F-C05-1);
+     as Go's swap-to-the-end loop (the Go code filters a clone of the client's slice since the
+     repair of F-C05-1, so there is no write to model);
    - criterion slices are immutable lists (assumes Go append never overwrites a slot visible
      to a live state); informationReqs/informationParents are one list of pairs;
    - Go maps (extras, incompatibilities, connected, ids) are association lists / sets; map
